@@ -329,3 +329,747 @@ def strip_none_default(e: ast.expr) -> str:
             and isinstance(e.args[1], ast.Constant) and e.args[1].value is None and not e.keywords:
         return "%s(%s)" % (norm(e.func), norm(e.args[0]))
     return norm(e)
+
+
+# =====================================================================================================================
+# helpers of rules u..y (checks/c16.py)
+
+
+def fold_int(e: ast.expr, depth: int = 0) -> Optional[int]:
+    """value of an integer constant expression (+ - * ** << over integer constants), None when it is not one"""
+    if isinstance(e, ast.Constant) and isinstance(e.value, int) and not isinstance(e.value, bool):
+        return e.value
+    if depth > 6:
+        return None
+    if isinstance(e, ast.UnaryOp) and isinstance(e.op, ast.USub):
+        v = fold_int(e.operand, depth + 1)
+        return None if v is None else -v
+    if isinstance(e, ast.BinOp):
+        a, b = fold_int(e.left, depth + 1), fold_int(e.right, depth + 1)
+        if a is None or b is None:
+            return None
+        if isinstance(e.op, ast.Add):
+            return a + b
+        if isinstance(e.op, ast.Sub):
+            return a - b
+        if isinstance(e.op, ast.Mult):
+            return a * b
+        if isinstance(e.op, ast.Pow) and 0 <= b <= 128 and abs(a) <= 16:
+            return a ** b
+        if isinstance(e.op, ast.LShift) and 0 <= b <= 128:
+            return a << b
+    return None
+
+
+def denotes(mod: Module, fn_expr: ast.expr, module: str, names: tuple[str, ...]) -> bool:
+    """fn_expr is `<module>.<name>` or a bare name imported `from <module> import <name>`"""
+    if isinstance(fn_expr, ast.Attribute) and fn_expr.attr in names and isinstance(fn_expr.value, ast.Name) and fn_expr.value.id == module:
+        return True
+    if isinstance(fn_expr, ast.Name):
+        imp = imports(mod).get(fn_expr.id)
+        return imp is not None and imp[0] == module and imp[1] in names
+    return False
+
+
+def stmt_of(mod: Module, node: ast.AST, fn: ast.AST) -> Optional[ast.stmt]:
+    """the innermost statement of fn that contains node"""
+    if isinstance(node, ast.stmt):
+        return node
+    for p in mod.parents(node):
+        if isinstance(p, ast.stmt):
+            return p
+        if p is fn:
+            break
+    return None
+
+
+def params(fn: ast.AST) -> set[str]:
+    a = fn.args  # type: ignore[attr-defined]
+    out = {x.arg for x in a.posonlyargs + a.args + a.kwonlyargs}
+    for x in (a.vararg, a.kwarg):
+        if x is not None:
+            out.add(x.arg)
+    return out
+
+
+# ------------------------------------------------------------------------------------- nullability of a grammar element
+
+_NULLABLE_CTORS = ("Optional", "Opt", "ZeroOrMore", "Empty")
+_TRANSPARENT_CTORS = ("Suppress", "Group", "Combine", "OneOrMore", "DelimitedList", "delimitedList", "Dict", "Located", "Forward")
+
+
+def grammar_nullable(repo: Repo, mod: Module, e: ast.expr, seen: Optional[set] = None) -> bool:
+    """can the pyparsing expression (module-level definitions followed by name, also into `from M import` modules of the
+    tree) match the empty string?  Optional/ZeroOrMore/Empty do, a sequence if all its parts do, an alternative if one
+    does; every terminal (Regex, Literal, Keyword, ...) and everything unknown does not."""
+    seen = set() if seen is None else seen
+    if isinstance(e, ast.BinOp):
+        if isinstance(e.op, (ast.Add, ast.BitAnd, ast.Sub)):
+            return grammar_nullable(repo, mod, e.left, seen) and grammar_nullable(repo, mod, e.right, seen)
+        if isinstance(e.op, (ast.BitOr, ast.BitXor)):
+            return grammar_nullable(repo, mod, e.left, seen) or grammar_nullable(repo, mod, e.right, seen)
+        return False
+    if isinstance(e, ast.Call):
+        last = norm(e.func).split(".")[-1]
+        if isinstance(e.func, ast.Name) or (isinstance(e.func, ast.Attribute) and isinstance(e.func.value, ast.Name) and e.func.value.id in ("pyparsing", "pp")):
+            if last in _NULLABLE_CTORS:
+                return True
+            if last in _TRANSPARENT_CTORS and e.args:
+                return grammar_nullable(repo, mod, e.args[0], seen)
+            if last in ("Comp", "Param") and len(e.args) >= 2:  # rdflib.plugins.sparql.parserutils: Comp(name, expr), Param(name, expr)
+                return grammar_nullable(repo, mod, e.args[1], seen)
+            return False
+        if isinstance(e.func, ast.Attribute):  # X.leave_whitespace(), X.set_name(...): the element itself
+            return grammar_nullable(repo, mod, e.func.value, seen)
+        return False
+    if isinstance(e, ast.Name):
+        if (mod.name, e.id) in seen:
+            return False
+        seen.add((mod.name, e.id))
+        vals = module_values(mod).get(e.id)
+        if vals:
+            return any(grammar_nullable(repo, mod, v, seen) for v in vals)
+        imp = imports(mod).get(e.id)
+        if imp and imp[0] in repo.modules:
+            m2 = repo.modules[imp[0]]
+            return grammar_nullable(repo, m2, ast.Name(id=imp[1], ctx=ast.Load()), seen)
+    return False
+
+
+# ---------------------------------------------------------------------------------- carriage return before the grammar
+
+
+def _has_cr(e: ast.expr) -> bool:
+    s = const_str(e)
+    return s is not None and "\r" in s
+
+
+def _ends_cr(e: ast.expr) -> Optional[int]:
+    """length of the constant suffix if it ends in a carriage return"""
+    s = const_str(e)
+    return len(s) if s is not None and s.endswith("\r") else None
+
+
+def cr_guard(test: ast.expr, name: str) -> Optional[int]:
+    """the test has a conjunct `<name>.endswith(<constant ending in CR>)`: length of that constant"""
+    leaves = [test]
+    while leaves:
+        t = leaves.pop()
+        if isinstance(t, ast.BoolOp) and isinstance(t.op, ast.And):
+            leaves.extend(t.values)
+        elif isinstance(t, ast.Call) and isinstance(t.func, ast.Attribute) and t.func.attr == "endswith" and isinstance(t.func.value, ast.Name) \
+                and t.func.value.id == name and len(t.args) == 1:
+            k = _ends_cr(t.args[0])
+            if k is not None:
+                return k
+    return None
+
+
+def drops_tail(e: ast.expr, name: str, k: int) -> bool:
+    """e is <name>[:-k] (or a CR-removing call on <name>)"""
+    if isinstance(e, ast.Subscript) and isinstance(e.value, ast.Name) and e.value.id == name and isinstance(e.slice, ast.Slice) \
+            and e.slice.lower is None and e.slice.step is None and e.slice.upper is not None:
+        return fold_int(e.slice.upper) == -k
+    return cr_removing_call(e) and isinstance(e.func.value, ast.Name) and e.func.value.id == name  # type: ignore[attr-defined]
+
+
+def cr_removing_call(e: ast.AST) -> bool:
+    """a str method call after which the text does not end in a carriage return that belonged to a CR LF line end"""
+    if not (isinstance(e, ast.Call) and isinstance(e.func, ast.Attribute)):
+        return False
+    a = e.func.attr
+    if a in ("strip", "rstrip"):
+        return not e.args or _has_cr(e.args[0])
+    if a == "removesuffix":
+        return bool(e.args) and _has_cr(e.args[0])
+    if a == "replace":
+        return bool(e.args) and _has_cr(e.args[0])
+    if a in ("split", "rsplit", "partition", "rpartition"):
+        return bool(e.args) and _has_cr(e.args[0])
+    return False
+
+
+class LineTrace:
+    """backward def-use slice of a text expression inside one function: does it come from a line-wise read
+    (`.readline()`, iteration over a file) and has a trailing carriage return been removed on every path"""
+
+    def __init__(self, mod: Module, fn: ast.AST, _stack: tuple = ()):
+        from .cfg import CFG
+        self.mod, self.fn = mod, fn
+        self.g = CFG(fn)
+        self.sources: set[str] = set()
+        self._stack = _stack + (id(fn),)  # the functions whose parameters are being followed to their call sites
+
+    def _defs(self, at: int, name: str) -> set[int]:
+        from .cfg import reaching_defs
+        return reaching_defs(self.g, at, name)
+
+    def cr_free(self, e: ast.expr, at: int, seen: Optional[set] = None) -> bool:
+        seen = set() if seen is None else seen
+        if isinstance(e, ast.Constant):
+            return True
+        if isinstance(e, ast.Call):
+            if cr_removing_call(e):
+                self._note(e.func.value, at, seen)  # type: ignore[attr-defined]
+                return True
+            if isinstance(e.func, ast.Attribute) and e.func.attr in ("readline", "__next__"):
+                self.sources.add("readline")
+                return False
+            if isinstance(e.func, ast.Name) and e.func.id == "next":
+                self.sources.add("readline")
+                return False
+            if isinstance(e.func, ast.Attribute) and e.func.attr in ("strip", "rstrip", "lstrip", "removeprefix", "removesuffix", "lower", "upper", "decode", "encode", "format"):
+                return self.cr_free(e.func.value, at, seen)
+            if e.args and not e.keywords:  # f(text): taken as a text-to-text function that keeps the line end
+                return all([self.cr_free(a, at, seen) for a in e.args])
+            self.sources.add("other")
+            return False
+        if isinstance(e, ast.IfExp):
+            for nm in names_in(e.test):
+                k = cr_guard(e.test, nm)
+                if k is not None and drops_tail(e.body, nm, k) and isinstance(e.orelse, ast.Name) and e.orelse.id == nm:
+                    self._note(e.orelse, at, seen)
+                    return True
+            return all([self.cr_free(e.body, at, seen), self.cr_free(e.orelse, at, seen)])
+        if isinstance(e, ast.Subscript):
+            return self.cr_free(e.value, at, seen)
+        if isinstance(e, ast.BinOp) and isinstance(e.op, ast.Add):  # the end of a concatenation is the end of its right operand
+            self._note(e.left, at, seen)
+            return self.cr_free(e.right, at, seen)
+        if isinstance(e, ast.Name):
+            return self._name(e.id, at, seen)
+        self.sources.add("other")
+        return False
+
+    def _note(self, e: ast.expr, at: int, seen: set) -> None:
+        """record the sources below an expression whose verdict is already known"""
+        self.cr_free(e, at, set(seen))
+
+    def _name(self, name: str, at: int, seen: set) -> bool:
+        if (name, at) in seen:
+            return False
+        seen.add((name, at))
+        g = self.g
+        defs = self._defs(at, name)
+        if not defs:
+            self.sources.add("param")
+            return False
+        # (b) an `if <name>.endswith("\r"): <name> = <name>[:-1]` that every path to here passes, after every other binding
+        for st in own_nodes(self.fn):
+            if not (isinstance(st, ast.If) and not st.orelse):
+                continue
+            k = cr_guard(st.test, name)
+            if k is None:
+                continue
+            inner = [a for s in st.body for a in ast.walk(s) if isinstance(a, (ast.Assign, ast.AnnAssign, ast.AugAssign)) and name in {t.id for t in ast.walk(a) if isinstance(t, ast.Name) and isinstance(t.ctx, ast.Store)}]
+            if not inner or not all(isinstance(a, ast.Assign) and len(a.targets) == 1 and isinstance(a.targets[0], ast.Name) and drops_tail(a.value, name, k) for a in inner):
+                continue
+            t = g.by_ast.get(id(st))
+            if t is None or not g.must_pass_before(at, [t]):
+                continue
+            before = self._defs(t, name)
+            inner_ids = {g.by_ast.get(id(a)) for a in inner}
+            if all(d in inner_ids or d in before for d in defs):
+                for d in before:
+                    self._binding(d, name, seen, note_only=True)
+                return True
+        # (a) every binding that reaches here is itself free of the carriage return
+        ok = True
+        for d in defs:
+            if not self._binding(d, name, seen):
+                ok = False
+        return ok
+
+    def _binding(self, d: int, name: str, seen: set, note_only: bool = False) -> bool:
+        """is the value that the binding d gives to name free of the carriage return; g.entry: the value at function entry,
+        for a parameter what the call sites of the function in this module hand in"""
+        if d != self.g.entry:
+            return self._def_value(d, name, seen, note_only)
+        if name in params(self.fn) and self._from_call_sites(name):
+            return True
+        self.sources.add("param")
+        return False
+
+    def _from_call_sites(self, name: str) -> bool:
+        """the parameter `name` of self.fn is free of the carriage return at every call of self.fn in this module (and there
+        is one); the sources met in the callers are recorded.  False when the function is not called here (its callers are
+        unknown) or when some caller hands in a text that still has it."""
+        fn = self.fn
+        if not isinstance(fn, (ast.FunctionDef, ast.AsyncFunctionDef)) or len(self._stack) > 3:
+            return False
+        owner = class_of_function(self.mod, fn)
+        pos = [a.arg for a in fn.args.posonlyargs + fn.args.args]
+        static = any(norm(d) == "staticmethod" for d in fn.decorator_list)
+        sites = []
+        for q, caller in self.mod.functions():
+            if id(caller) in self._stack:
+                continue
+            for c in own_nodes(caller):
+                if isinstance(c, ast.Call) and resolve_callee(self.mod, c, class_of_function(self.mod, caller) if owner is not None else None) is fn:
+                    sites.append((caller, c))
+        if not sites:
+            return False
+        ok = True
+        for caller, c in sites:
+            bound = isinstance(c.func, ast.Attribute) and owner is not None and not static and norm(c.func.value) in ("self", "cls")
+            names = pos[1:] if bound else pos
+            arg = next((k.value for k in c.keywords if k.arg == name), None)
+            if arg is None and name in names and names.index(name) < len(c.args) and not any(isinstance(a, ast.Starred) for a in c.args):
+                arg = c.args[names.index(name)]
+            if arg is None:
+                self.sources.add("other")
+                ok = False
+                continue
+            tr = LineTrace(self.mod, caller, self._stack)
+            if not tr.cr_free(arg, tr.g.node_of(c, self.mod)):
+                ok = False
+            self.sources |= tr.sources
+        return ok
+
+    def _def_value(self, d: int, name: str, seen: set, note_only: bool = False) -> bool:
+        st = self.g.nodes[d].ast
+        # `while (name := <read>):` / `if (name := ..)` - the binding sits in the head of the statement
+        head = st.test if isinstance(st, (ast.While, ast.If)) else st if isinstance(st, (ast.Expr, ast.Return, ast.Assign, ast.AnnAssign)) else None
+        if head is not None:
+            for w in ast.walk(head):
+                if isinstance(w, ast.NamedExpr) and isinstance(w.target, ast.Name) and w.target.id == name:
+                    return self.cr_free(w.value, d, set(seen) if note_only else seen)
+        if isinstance(st, (ast.For, ast.AsyncFor)) and isinstance(st.target, ast.Name) and st.target.id == name:
+            self.sources.add("readline")  # a record taken from iterating a source
+            return False
+        if isinstance(st, ast.Assign) and len(st.targets) == 1 and isinstance(st.targets[0], ast.Name) and st.targets[0].id == name:
+            return self.cr_free(st.value, d, set(seen) if note_only else seen)
+        if isinstance(st, ast.AnnAssign) and st.value is not None and isinstance(st.target, ast.Name) and st.target.id == name:
+            return self.cr_free(st.value, d, set(seen) if note_only else seen)
+        self.sources.add("other")
+        return False
+
+
+def eval_count_test(leaf: ast.Compare, is_count, n: int) -> Optional[bool]:
+    """truth of a comparison between `the number of variables` (the sub-expressions for which is_count(e) holds) and integer
+    constants, for the number n; None when the comparison has another shape"""
+    def val(e: ast.expr):
+        if is_count(e):
+            return n
+        v = fold_int(e)
+        if v is not None:
+            return v
+        if isinstance(e, (ast.Tuple, ast.List, ast.Set)):
+            vs = [val(x) for x in e.elts]
+            return None if any(x is None for x in vs) else tuple(vs)
+        return None
+
+    cur = val(leaf.left)
+    res = True
+    for op, c in zip(leaf.ops, leaf.comparators):
+        nxt = val(c)
+        if cur is None or nxt is None:
+            return None
+        if isinstance(op, (ast.In, ast.NotIn)):
+            if not isinstance(nxt, tuple) or isinstance(cur, tuple):
+                return None
+            r = (cur in nxt) if isinstance(op, ast.In) else (cur not in nxt)
+        else:
+            if isinstance(cur, tuple) or isinstance(nxt, tuple):
+                return None
+            r = {ast.Eq: cur == nxt, ast.NotEq: cur != nxt, ast.Lt: cur < nxt, ast.LtE: cur <= nxt, ast.Gt: cur > nxt, ast.GtE: cur >= nxt}.get(type(op))
+            if r is None:
+                return None
+        res = res and r
+        cur = nxt
+    return res
+
+
+# =====================================================================================================================
+# helpers of the restated rules (DESIGN §14): constants folded through module-level names, dispatch on the class of a
+# term (if-chain or table), code reached through calls inside the module, limits raised through a helper
+
+
+def local_names(fn: ast.AST) -> set[str]:
+    """parameters and names bound anywhere inside fn: they hide the module-level names"""
+    return params(fn) | bound_in(fn) if isinstance(fn, (ast.FunctionDef, ast.AsyncFunctionDef, ast.Lambda)) else set()
+
+
+def module_constant(repo: Repo, mod: Module, name: str) -> Optional[tuple[Module, ast.expr]]:
+    """the one expression a module-level name is bound to (followed through `from M import name` into the modules of
+    the tree); None when the name is bound more than once, not at all, or outside the tree"""
+    for _ in range(4):
+        vals = module_values(mod).get(name)
+        if vals is not None:
+            return (mod, vals[0]) if len(vals) == 1 else None
+        imp = imports(mod).get(name)
+        if imp is None or imp[0] not in repo.modules:
+            return None
+        mod, name = repo.modules[imp[0]], imp[1]
+    return None
+
+
+def fold_text(repo: Repo, mod: Module, e: ast.expr, hidden: set[str] = frozenset(), depth: int = 0) -> Optional[str]:  # type: ignore[assignment]
+    """the string a constant expression denotes: string constants, `+`, `%`, f-strings and `.format()` over them, and names
+    bound once at module level (followed into the modules of the tree).  A name imported from outside the tree stands for
+    itself and is written <module.name>, so that two spellings built on it fold to the same text.  `hidden`: the local names
+    of the function the expression sits in.  None when the expression is not such a constant."""
+    if depth > 8:
+        return None
+    if isinstance(e, ast.Constant):
+        return e.value if isinstance(e.value, str) else None
+    if isinstance(e, ast.Name):
+        if e.id in hidden:
+            return None
+        mc = module_constant(repo, mod, e.id)
+        if mc is not None:
+            return fold_text(repo, mc[0], mc[1], frozenset(), depth + 1)
+        if module_values(mod).get(e.id):
+            return None
+        imp = imports(mod).get(e.id)
+        if imp is not None and imp[0] not in repo.modules:
+            return "<%s.%s>" % imp
+        return None
+    if isinstance(e, ast.BinOp) and isinstance(e.op, ast.Add):
+        a, b = fold_text(repo, mod, e.left, hidden, depth + 1), fold_text(repo, mod, e.right, hidden, depth + 1)
+        return None if a is None or b is None else a + b
+    if isinstance(e, ast.BinOp) and isinstance(e.op, ast.Mod):
+        fmt = fold_text(repo, mod, e.left, hidden, depth + 1)
+        parts = e.right.elts if isinstance(e.right, ast.Tuple) else [e.right]
+        vals = [fold_text(repo, mod, p, hidden, depth + 1) for p in parts]
+        if fmt is None or any(v is None for v in vals) or re.search(r"%[^s%]", fmt):
+            return None
+        try:
+            return fmt % tuple(vals)
+        except (TypeError, ValueError):
+            return None
+    if isinstance(e, ast.JoinedStr):
+        out = []
+        for v in e.values:
+            if isinstance(v, ast.FormattedValue):
+                if v.format_spec is not None or v.conversion not in (-1, 115):
+                    return None
+                s = fold_text(repo, mod, v.value, hidden, depth + 1)
+            else:
+                s = fold_text(repo, mod, v, hidden, depth + 1)
+            if s is None:
+                return None
+            out.append(s)
+        return "".join(out)
+    if isinstance(e, ast.Call) and isinstance(e.func, ast.Attribute) and e.func.attr == "format" and not e.keywords:
+        fmt = fold_text(repo, mod, e.func.value, hidden, depth + 1)
+        vals = [fold_text(repo, mod, p, hidden, depth + 1) for p in e.args]
+        if fmt is None or any(v is None for v in vals) or re.search(r"\{[^}]", fmt.replace("{{", "")):
+            return None
+        try:
+            return fmt.format(*vals)
+        except (IndexError, KeyError, ValueError):
+            return None
+    return None
+
+
+def fold_int_in(repo: Repo, mod: Module, e: ast.expr, hidden: set[str] = frozenset()) -> Optional[int]:  # type: ignore[assignment]
+    """fold_int, with names bound once at module level (in the tree) replaced by their definitions"""
+    class _Sub(ast.NodeTransformer):
+        def __init__(self) -> None:
+            self.depth = 0
+
+        def visit_Name(self, n: ast.Name) -> ast.AST:
+            if n.id in hidden or self.depth > 6:
+                return n
+            mc = module_constant(repo, mod, n.id)
+            if mc is None:
+                return n
+            self.depth += 1
+            try:
+                return self.visit(_copy(mc[1]))
+            finally:
+                self.depth -= 1
+
+    return fold_int(_Sub().visit(_copy(e)))
+
+
+def _copy(e: ast.AST) -> ast.AST:
+    import copy
+    return copy.deepcopy(e)
+
+
+def class_of_function(mod: Module, fn: ast.AST) -> Optional[ast.ClassDef]:
+    p = mod.parent.get(id(fn))
+    return p if isinstance(p, ast.ClassDef) else None
+
+
+def resolve_callee(mod: Module, call: ast.Call, owner: Optional[ast.ClassDef], env: Optional[dict[str, ast.expr]] = None) -> Optional[ast.AST]:
+    """the function of this module that a call can only run: `f(..)` with f a module-level def (or, through env, a name
+    that stands for one, or for a lambda), `self.m(..)` / `cls.m(..)` / `Owner.m(..)` with m defined in the class the
+    caller belongs to"""
+    f = call.func
+    if isinstance(f, ast.Name) and env and f.id in env:
+        f = env[f.id]  # type: ignore[assignment]
+    if isinstance(f, ast.Lambda):
+        return f
+    if isinstance(f, ast.Name):
+        d = mod.defs.get(f.id)
+        return d if isinstance(d, (ast.FunctionDef, ast.AsyncFunctionDef)) else None
+    if isinstance(f, ast.Attribute) and isinstance(f.value, ast.Name) and owner is not None and f.value.id in ("self", "cls", owner.name):
+        for st in owner.body:
+            if isinstance(st, (ast.FunctionDef, ast.AsyncFunctionDef)) and st.name == f.attr:
+                return st
+    return None
+
+
+def reached_code(mod: Module, roots: list[ast.AST], owner: Optional[ast.ClassDef], env: Optional[dict[str, ast.expr]] = None, depth: int = 3) -> list[ast.AST]:
+    """roots, plus the functions of this module that the roots call (resolve_callee), transitively to `depth`: the code
+    that runs when the roots run, as far as it lives in this module"""
+    out: list[ast.AST] = list(roots)
+    seen: set[int] = {id(r) for r in roots}
+    frontier = [(r, env) for r in roots]
+    for _ in range(depth):
+        nxt = []
+        for node, ev in frontier:
+            for c in ast.walk(node):
+                if isinstance(c, ast.Call):
+                    d = resolve_callee(mod, c, owner, ev)
+                    if d is not None and id(d) not in seen:
+                        seen.add(id(d))
+                        out.append(d)
+                        nxt.append((d, None))
+        frontier = nxt
+    return out
+
+
+def table_rows(repo: Repo, mod: Module, it: ast.expr, hidden: set[str]) -> Optional[list[list[ast.expr]]]:
+    """the rows of a constant table that a `for` iterates: a tuple/list display of tuples/lists (rows as written), a dict
+    display iterated with .items() (rows (key, value)) or bare / with .keys() (rows (key,)) - written in place or bound
+    once to a module-level name"""
+    how = "seq"
+    if isinstance(it, ast.Call) and isinstance(it.func, ast.Attribute) and it.func.attr in ("items", "keys", "values") and not it.args:
+        how, it = it.func.attr, it.func.value
+    if isinstance(it, ast.Name):
+        if it.id in hidden:
+            return None
+        mc = module_constant(repo, mod, it.id)
+        if mc is None:
+            return None
+        it = mc[1]
+    if isinstance(it, ast.Dict):
+        if any(k is None for k in it.keys):
+            return None
+        if how == "items":
+            return [[k, v] for k, v in zip(it.keys, it.values)]  # type: ignore[list-item]
+        if how == "values":
+            return [[v] for v in it.values]
+        return [[k] for k in it.keys]  # type: ignore[list-item]
+    if isinstance(it, (ast.Tuple, ast.List)) and how == "seq":
+        rows = []
+        for r in it.elts:
+            if isinstance(r, (ast.Tuple, ast.List)):
+                rows.append(list(r.elts))
+            elif isinstance(r, ast.Starred):
+                return None
+            else:
+                rows.append([r])
+        return rows
+    return None
+
+
+def class_arms(repo: Repo, mod: Module, fn: ast.AST, var: str) -> Iterator[tuple[str, list[ast.AST], ast.If]]:
+    """(class name, code, the if statement) for every class C such that fn runs `code` when isinstance(var, C) holds:
+    * `if isinstance(var, C):` / `if isinstance(var, (C, D)):` - the code is the arm (and what it calls in this module);
+    * `for K, F, .. in TABLE: if isinstance(var, K): ..F(var)..` over a constant table (table_rows) - one arm per row, the
+      loop names standing for the row's entries: the class is the row's entry for K, the code is the arm and, for the
+      names of the loop that the arm calls, the functions those entries denote."""
+    owner = class_of_function(mod, fn)
+    hidden = local_names(fn)
+    for n in ast.walk(fn):
+        if not (isinstance(n, ast.If) and isinstance(n.test, ast.Call) and norm(n.test.func) == "isinstance" and len(n.test.args) == 2 and norm(n.test.args[0]) == var):
+            continue
+        k = n.test.args[1]
+        loop = None
+        if isinstance(k, ast.Name) and k.id in hidden:
+            # the class is a loop variable: find the for statement that binds it
+            for p in mod.parents(n):
+                if isinstance(p, (ast.For, ast.AsyncFor)) and k.id in bound_in(p.target):
+                    loop = p
+                    break
+                if p is fn:
+                    break
+        if loop is None:
+            classes = k.elts if isinstance(k, ast.Tuple) else [k]
+            for c in classes:
+                yield norm(c), reached_code(mod, list(n.body), owner), n
+            continue
+        rows = table_rows(repo, mod, loop.iter, hidden)
+        if rows is None:
+            raise AnalysisError("%s: the classes that `%s` is tested against come from `%s`, which is not a constant table" % (getattr(fn, "name", "?"), var, norm(loop.iter)[:60]))
+        tg = list(loop.target.elts) if isinstance(loop.target, (ast.Tuple, ast.List)) else [loop.target]
+        for row in rows:
+            if len(row) != len(tg) or not all(isinstance(t, ast.Name) for t in tg):
+                raise AnalysisError("%s: a row of the table `%s` does not match the loop target `%s`" % (getattr(fn, "name", "?"), norm(loop.iter)[:40], norm(loop.target)))
+            env = {t.id: r for t, r in zip(tg, row)}  # type: ignore[attr-defined]
+            classes = env[k.id].elts if isinstance(env[k.id], ast.Tuple) else [env[k.id]]  # type: ignore[attr-defined]
+            for c in classes:
+                yield norm(c), reached_code(mod, list(n.body), owner, env), n
+
+
+def bind_args(callee: ast.AST, call: ast.Call, bound: bool) -> Optional[dict[str, ast.expr]]:
+    """parameter name -> the argument expression of this call (defaults for the ones left out); `bound`: the call is made
+    on an instance/class, the first parameter is not in the argument list.  None when the call uses * or **."""
+    if any(isinstance(a, ast.Starred) for a in call.args) or any(k.arg is None for k in call.keywords):
+        return None
+    a = callee.args  # type: ignore[attr-defined]
+    pos = [x.arg for x in a.posonlyargs + a.args]
+    defaults = dict(zip(pos[len(pos) - len(a.defaults):], a.defaults))
+    defaults.update({x.arg: d for x, d in zip(a.kwonlyargs, a.kw_defaults) if d is not None})
+    if bound:
+        pos = pos[1:]
+    if len(call.args) > len(pos):
+        return None
+    env: dict[str, ast.expr] = dict(zip(pos, call.args))
+    for k in call.keywords:
+        env[k.arg] = k.value  # type: ignore[index]
+    for p, d in defaults.items():
+        env.setdefault(p, d)
+    return env
+
+
+def is_bound_call(mod: Module, call: ast.Call, callee: ast.AST) -> bool:
+    """the call goes through `self.` / `cls.` to a method that takes the instance/class as its first parameter"""
+    return isinstance(call.func, ast.Attribute) and isinstance(callee, (ast.FunctionDef, ast.AsyncFunctionDef)) \
+        and class_of_function(mod, callee) is not None and not any(norm(d) == "staticmethod" for d in callee.decorator_list) \
+        and isinstance(call.func.value, ast.Name) and call.func.value.id in ("self", "cls")
+
+
+def call_establishes(mod: Module, call: ast.Call, owner: Optional[ast.ClassDef], sets, in_with: bool, depth: int = 0) -> bool:
+    """Does a module-wide setting hold when this call hands control back to its caller?  `sets(module, call, env, fn)` says
+    of a call inside function fn whether it puts the setting in force (True), takes it back (False) or is unrelated (None),
+    env giving the caller's argument expressions for fn's parameters.  The call establishes the setting when it is itself
+    such a call, or when it runs a function of this module (resolve_callee) in which every path to the point where control
+    goes back - the normal exit; for a @contextmanager generator entered by `with`, every yield - passes a call that puts
+    it in force, with no call that takes it back after that one on a path to that point."""
+    from .cfg import CFG
+
+    v = sets(mod, call, None, None)
+    if v is not None:
+        return bool(v)
+    callee = resolve_callee(mod, call, owner)
+    if not isinstance(callee, (ast.FunctionDef, ast.AsyncFunctionDef)) or depth > 2:
+        return False
+    yields = [y for y in own_nodes(callee) if isinstance(y, (ast.Yield, ast.YieldFrom))]
+    is_cm = any(norm(d).split(".")[-1] in ("contextmanager", "asynccontextmanager") for d in callee.decorator_list)
+    if bool(yields) != (is_cm and in_with) or (is_cm and not yields):
+        return False  # a generator's body runs only as a context manager under `with`; a plain function's when it is called
+    env = bind_args(callee, call, is_bound_call(mod, call, callee))
+    if env is None:
+        return False
+    stored = bound_in(callee)
+    env = {p: e for p, e in env.items() if p not in stored}
+    g = CFG(callee)
+    up, down = [], []
+    cowner = class_of_function(mod, callee)
+    for c in own_nodes(callee):
+        if not isinstance(c, ast.Call):
+            continue
+        v = sets(mod, c, env, callee)
+        if v is None and resolve_callee(mod, c, cowner) is not None:
+            par = mod.parent.get(id(c))
+            # a helper of the helper: followed when its arguments do not depend on this function's parameters
+            v = True if not (names_in(c) & set(env)) and call_establishes(mod, c, cowner, sets, isinstance(par, ast.withitem) and par.context_expr is c, depth + 1) else None
+        if v is True:
+            up.append(g.node_of(c, mod))
+        elif v is False:
+            down.append(g.node_of(c, mod))
+    hand = [g.node_of(y, mod) for y in yields] if yields else [g.exit]
+    if not up:
+        return False
+    for h in hand:
+        if not g.must_pass_before(h, up):
+            return False
+        if any(d not in up and (h == d or h in g.reach(d, avoid=up)) for d in down):
+            return False
+    return True
+
+
+def conj_leaves(test: ast.expr, negated: bool = False) -> Optional[list[tuple[ast.expr, bool]]]:
+    """the condition `test` (or `not test`) as a conjunction: [(leaf, leaf is negated)], with negations pushed inwards
+    (not (a or b) = not a and not b); None when it is a disjunction, i.e. when no leaf is known to hold"""
+    if isinstance(test, ast.UnaryOp) and isinstance(test.op, ast.Not):
+        return conj_leaves(test.operand, not negated)
+    if isinstance(test, ast.BoolOp) and isinstance(test.op, ast.Or if negated else ast.And):
+        out: list[tuple[ast.expr, bool]] = []
+        for v in test.values:
+            sub = conj_leaves(v, negated)
+            if sub is None:
+                return None
+            out += sub
+        return out
+    if isinstance(test, ast.BoolOp):
+        return None
+    return [(test, negated)]
+
+
+_TEXT_KEEPING = ("strip", "rstrip", "lstrip", "removesuffix", "removeprefix", "decode", "encode", "replace", "expandtabs")
+
+
+def record_names(loop: ast.AST) -> set[str]:
+    """names that, inside a reader's row loop, hold the record as it was read - not what was parsed out of it: the target of
+    a `for` over the source, what .readline() / next() / .__next__() gave, and copies of those through operations that map
+    a text to a text (strip, removesuffix, slices, decode, a conditional expression between such)"""
+    out: set[str] = set()
+    if isinstance(loop, (ast.For, ast.AsyncFor)):
+        out |= bound_in(loop.target)
+
+    def is_read(e: ast.AST) -> bool:
+        return isinstance(e, ast.Call) and ((isinstance(e.func, ast.Attribute) and e.func.attr in ("readline", "__next__")) or (isinstance(e.func, ast.Name) and e.func.id == "next"))
+
+    def keeps(e: ast.AST) -> bool:
+        if isinstance(e, ast.Name):
+            return e.id in out
+        if is_read(e):
+            return True
+        if isinstance(e, ast.Subscript):
+            return keeps(e.value)
+        if isinstance(e, ast.IfExp):
+            return keeps(e.body) and keeps(e.orelse)
+        if isinstance(e, ast.Call) and isinstance(e.func, ast.Attribute) and e.func.attr in _TEXT_KEEPING:
+            return keeps(e.func.value)
+        return False
+
+    binds = [n for n in ast.walk(loop) if isinstance(n, (ast.Assign, ast.AnnAssign, ast.NamedExpr)) and getattr(n, "value", None) is not None]
+    changed = True
+    while changed:
+        changed = False
+        for n in binds:
+            tg = n.targets if isinstance(n, ast.Assign) else [n.target]
+            if keeps(n.value):
+                for t in tg:
+                    if isinstance(t, ast.Name) and t.id not in out:
+                        out.add(t.id)
+                        changed = True
+    # a name that is also bound to something else inside the loop does not always hold the record
+    for n in binds:
+        tg = n.targets if isinstance(n, ast.Assign) else [n.target]
+        if not keeps(n.value):
+            out -= {t.id for t in tg if isinstance(t, ast.Name)}
+    return out
+
+
+def is_emptiness_test(leaf: ast.expr, negated: bool, names: set[str]) -> bool:
+    """the (possibly negated) leaf holds exactly when one of `names` is empty: `n == ''` / b'' / [] / (), `len(n) == 0`,
+    `not n`, and the negations of `n != ''`, `len(n) > 0`, `n`"""
+    def is_name(e: ast.AST) -> bool:
+        return isinstance(e, ast.Name) and e.id in names
+
+    def empty_const(e: ast.AST) -> bool:
+        return (isinstance(e, ast.Constant) and e.value in ("", b"")) or (isinstance(e, (ast.List, ast.Tuple)) and not e.elts)
+
+    def is_len(e: ast.AST) -> bool:
+        return isinstance(e, ast.Call) and norm(e.func) == "len" and len(e.args) == 1 and is_name(e.args[0])
+
+    if is_name(leaf):
+        return negated
+    if isinstance(leaf, ast.Compare) and len(leaf.ops) == 1:
+        a, b, op = leaf.left, leaf.comparators[0], leaf.ops[0]
+        if (is_name(a) and empty_const(b)) or (is_name(b) and empty_const(a)):
+            return isinstance(op, ast.NotEq if negated else ast.Eq)
+        zero = lambda e: isinstance(e, ast.Constant) and e.value == 0 and not isinstance(e.value, bool)  # noqa: E731
+        if is_len(a) and zero(b):
+            return isinstance(op, (ast.NotEq, ast.Gt) if negated else ast.Eq)
+        if is_len(b) and zero(a):
+            return isinstance(op, (ast.NotEq, ast.Lt) if negated else ast.Eq)
+    return False
